@@ -108,6 +108,7 @@ theorem Sys.step_txnEq {t : H} {s s' : Sys H K B V} (h : TxnEq t s s') (op : Op 
     | some bc => exact ⟨rfl, ⟨rfl, rfl, htcs⟩⟩
   | qget b k => simp only [Sys.step, hsc]; exact ⟨trivial, ⟨rfl, hbcs, htcs⟩⟩
   | sget k b => simp only [Sys.step, hsc]; exact ⟨trivial, ⟨rfl, hbcs, htcs⟩⟩
+  | srem k => simp only [Sys.step, hsc]; exact ⟨trivial, ⟨rfl, hbcs, htcs⟩⟩
 
 theorem Sys.run_txnEq {t : H} {s s' : Sys H K B V} (h : TxnEq t s s') (ops : List (Op H K B V))
     (hu : ∀ op ∈ ops, op.usesTxn t = false) : (s'.run ops).2 = (s.run ops).2 := by
@@ -285,6 +286,7 @@ theorem Sys.step_blkEq {h : H} {s s' : Sys H K B V} (e : BlkEq h s s') (op : Op 
     | some bc => exact ⟨rfl, ⟨rfl, (e.bcs_aset h1 hne _).1, (e.bcs_aset h1 hne _).2, e.tcs⟩⟩
   | qget b k => simp only [Sys.step, hsc]; exact ⟨trivial, ⟨rfl, e.bcs, e.here, e.tcs⟩⟩
   | sget k b => simp only [Sys.step, hsc]; exact ⟨trivial, ⟨rfl, e.bcs, e.here, e.tcs⟩⟩
+  | srem k => simp only [Sys.step, hsc]; exact ⟨trivial, ⟨rfl, e.bcs, e.here, e.tcs⟩⟩
 
 /-- the history never goes through block-cache handle `h` -/
 def AvoidsBlk (h : H) : Sys H K B V → List (Op H K B V) → Prop
